@@ -702,3 +702,184 @@ func ruleClauseBuild(c *Ctx, r *Report) {
 	sort.Strings(gs)
 	r.analysed(rule, "growers: "+strings.Join(gs, " "), fmt.Sprintf("%d external call sites", n))
 }
+
+// ---------------------------------------------------------------------------
+// R-ASSERT-COPY (C10, C09; added with fix F24): "a stored clause is the clause that was given" - as it was
+// when it was given. A function that compiles a term and stores the result into a procedure's clause list
+// (the assert built-ins) compiles a renamed copy: the argument of the compiler originates from the copier.
+// Otherwise the stored term shares variables with the asserting goal and bindings made AFTER the assert
+// show through clause/2 and retract/1 (assertz(foo(X)), X = 1, clause(foo(Y), true) answers Y = 1).
+
+func ruleAssertCopy(c *Ctx, r *Report) {
+	const rule = "R-ASSERT-COPY"
+	compile := c.fn("compile")
+	copier := c.fn("renamedCopy")
+	if compile == nil || copier == nil {
+		r.undecided(rule, "anchor", "-", "locate compile and renamedCopy", "not found")
+		return
+	}
+	desc := "a clause stored by an assert built-in is compiled from a renamed copy of the given term"
+	n := 0
+	for _, fn := range c.LibFuncs() {
+		stores := false
+		eachInstr(fn, func(in ssa.Instruction) {
+			if st, ok := in.(*ssa.Store); ok {
+				if base, ok := fieldAddrOf(st.Addr, "userDefined", "clauses"); ok {
+					if _, fresh := base.(*ssa.Alloc); !fresh { // a one-off procedure built for call/N is not the database
+						stores = true
+					}
+				}
+			}
+		})
+		if !stores {
+			continue
+		}
+		eachInstr(fn, func(in ssa.Instruction) {
+			call, ok := in.(*ssa.Call)
+			if !ok || call.Call.StaticCallee() != compile {
+				return
+			}
+			n++
+			key := fmt.Sprintf("%s/compile#%d", fname(fn), n)
+			good := true
+			var bad ssa.Value
+			for _, l := range c.reachingOrigins(call.Call.Args[0], call) {
+				cl, idx := callOfValue(l)
+				if cl == nil || idx != 0 || cl.Call.StaticCallee() != copier {
+					good, bad = false, l
+				}
+			}
+			if good {
+				r.ok(rule, key, c.at(in), desc, "the compiled term is the result of renamedCopy", true)
+			} else {
+				r.bad(rule, fmt.Sprintf("%s/compile", fname(fn)), c.at(in), desc, "the compiled term may be "+valName(bad)+", which shares variables with the caller: bindings made after the assert show through clause/2 and retract/1")
+			}
+		})
+	}
+	if n == 0 {
+		r.bad(rule, "scan/assert-sites", "-", desc, "no function both compiles a term and stores into a clause list")
+	}
+	r.analysed(rule, fmt.Sprintf("%d compile calls in functions that store into a clause list", n))
+}
+
+// reachingOrigins is originSet with flow-sensitive treatment of local variable cells (reachingStores).
+func (c *Ctx) reachingOrigins(v ssa.Value, at ssa.Instruction) []ssa.Value {
+	var out []ssa.Value
+	seen := map[ssa.Value]bool{}
+	var walk func(x ssa.Value)
+	walk = func(x ssa.Value) {
+		if x == nil || seen[x] {
+			return
+		}
+		seen[x] = true
+		switch y := x.(type) {
+		case *ssa.Phi:
+			for _, e := range y.Edges {
+				walk(e)
+			}
+		case *ssa.MakeInterface:
+			walk(y.X)
+		case *ssa.ChangeInterface:
+			walk(y.X)
+		case *ssa.UnOp:
+			if y.Op == token.MUL {
+				if cell := c.varCell(y.X); cell != nil {
+					for _, st := range c.reachingStores(cell, y) {
+						walk(st.Val)
+					}
+					return
+				}
+			}
+			out = append(out, x)
+		default:
+			out = append(out, x)
+		}
+	}
+	walk(v)
+	return out
+}
+
+// ---------------------------------------------------------------------------
+// R-VARS-PER-CLAUSE (C10; added with fix F25): the variables of a clause are local to it. The loader reads
+// a text clause by clause with one parser; before each clause it empties the parser's table of variable
+// names: inside the reading loop there is a store into Parser.Vars of a slice of that table whose upper
+// bound is the constant 0, dominating the call that parses the clause. (The code used to re-slice the
+// table to its full length: equally named variables of different clauses were one variable, and the
+// stored terms of `foo(X). bar(X).` shared it.)
+
+func ruleVarsPerClause(c *Ctx, r *Report) {
+	const rule = "R-VARS-PER-CLAUSE"
+	term := c.method("Parser", "Term")
+	if term == nil {
+		r.undecided(rule, "anchor:Parser.Term", "-", "locate Parser.Term", "not found")
+		return
+	}
+	desc := "the loader empties the parser's variable table before it reads the next clause"
+	n := 0
+	for _, fn := range c.LibFuncs() {
+		if funcPkg(fn) != c.Engine {
+			continue
+		}
+		eachInstr(fn, func(in ssa.Instruction) {
+			call, ok := in.(*ssa.Call)
+			if !ok || call.Call.StaticCallee() != term {
+				return
+			}
+			// only a Term() call inside a loop (a text of several clauses)
+			if !reachableFromSucc(call.Block(), call.Block()) {
+				return
+			}
+			n++
+			key := fmt.Sprintf("%s/Parser.Term-in-loop", fname(fn))
+			reset := false
+			eachInstr(fn, func(x ssa.Instruction) {
+				st, ok := x.(*ssa.Store)
+				if !ok {
+					return
+				}
+				fa, ok := st.Addr.(*ssa.FieldAddr)
+				if !ok || fieldName(fa) != "Vars" {
+					return
+				}
+				sl, ok := st.Val.(*ssa.Slice)
+				if !ok || sl.High == nil {
+					return
+				}
+				if k, ok := constInt(sl.High); !ok || k != 0 {
+					return
+				}
+				sb, cb := st.Block(), call.Block()
+				if (sb == cb && instrIndex(st) < instrIndex(call)) || (sb != cb && sb.Dominates(cb) && reachableFromSucc(sb, sb)) {
+					reset = true
+				}
+			})
+			if reset {
+				r.ok(rule, key, c.at(in), desc, "Parser.Vars = Parser.Vars[:0] in the loop, before the clause is parsed", true)
+			} else {
+				r.bad(rule, key, c.at(in), desc, "the variable table is not emptied inside the loop: equally named variables of different clauses are the same variable")
+			}
+		})
+	}
+	if n == 0 {
+		r.bad(rule, "scan/reading-loop", "-", desc, "no loop that parses clause after clause found")
+	}
+	r.analysed(rule, fmt.Sprintf("%d clause-reading loops", n))
+}
+
+func reachableFromSucc(from, to *ssa.BasicBlock) bool {
+	seen := map[*ssa.BasicBlock]bool{}
+	st := append([]*ssa.BasicBlock{}, from.Succs...)
+	for len(st) > 0 {
+		b := st[len(st)-1]
+		st = st[:len(st)-1]
+		if seen[b] {
+			continue
+		}
+		seen[b] = true
+		if b == to {
+			return true
+		}
+		st = append(st, b.Succs...)
+	}
+	return false
+}
